@@ -225,6 +225,7 @@ func init() {
 	}
 	m["(*container/list.List).PushFront"] = func(x *Exec, s *State, fn *ssa.Function, args []Val) Val {
 		l := args[0].L[0]
+		x.ownedObjectAccess(s, l, true, "container/list.List.PushFront")
 		e := x.allocRef(s, "listelem")
 		next := x.heapLoad(s, "ghost:list.next", "Int", l)
 		mem := x.heapLoad(s, "ghost:list.mem", "(Array Int Bool)", l)
@@ -248,6 +249,7 @@ func init() {
 	}
 	m["(*container/list.List).Remove"] = func(x *Exec, s *State, fn *ssa.Function, args []Val) Val {
 		l, e := args[0].L[0], args[1].L[0]
+		x.ownedObjectAccess(s, l, true, "container/list.List.Remove")
 		mem := x.heapLoad(s, "ghost:list.mem", "(Array Int Bool)", l)
 		ln := x.heapLoad(s, "ghost:list.len", "Int", l)
 		isMem := "(select " + mem + " " + e + ")"
@@ -259,6 +261,7 @@ func init() {
 	frontBack := func(front bool) modelFn {
 		return func(x *Exec, s *State, fn *ssa.Function, args []Val) Val {
 			l := args[0].L[0]
+			x.ownedObjectAccess(s, l, false, "container/list.List.FrontBack")
 			mem := x.heapLoad(s, "ghost:list.mem", "(Array Int Bool)", l)
 			ln := x.heapLoad(s, "ghost:list.len", "Int", l)
 			st := x.heapCur(s, "ghost:list.stamp", "Int")
@@ -279,6 +282,7 @@ func init() {
 	m["(*container/list.List).Front"] = frontBack(true)
 	m["(*container/list.List).Back"] = frontBack(false)
 	m["(*container/list.List).Len"] = func(x *Exec, s *State, fn *ssa.Function, args []Val) Val {
+		x.ownedObjectAccess(s, args[0].L[0], false, "container/list.List.Len")
 		ln := x.heapLoad(s, "ghost:list.len", "Int", args[0].L[0])
 		s.assume("(>= " + ln + " 0)")
 		return intVal(ln)
@@ -364,3 +368,21 @@ func (x *Exec) atomicAccess(s *State, loc *Loc) {
 }
 
 var _ = fmt.Sprint
+
+// ownedObjectAccess: an operation on a library object (container/list) that a contract file
+// declares a sub-object of some lock must run with that lock held (exclusively for a mutation).
+func (x *Exec) ownedObjectAccess(s *State, ref string, write bool, what string) {
+	if !x.checkOwn || x.isFresh(s, ref) {
+		return
+	}
+	lock, ok := s.ownedBy[ref]
+	if !ok {
+		return
+	}
+	h, held := s.held[lock]
+	goal := "true"
+	if !(held && (h.Write || !write)) {
+		goal = "false"
+	}
+	x.emit(s, "owns", what, x.spec.Owns, goal, nil)
+}
